@@ -3,7 +3,7 @@ import Librfn.Lemmas.HBVec
 /-! The vector-clock invariant of the happens-before detector: after `n` events, component `u` of thread `t`'s
 clock counts exactly the events of `u` that happen before (or are) an event of `t`; `rels l` does the same for
 the release-or-stronger writes of the current release sequence(s) of `l`. -/
-namespace Librfn.C07
+namespace Librfn.C07.HBLemmas
 open Librfn.Model.HB Librfn.Spec.HBRel
 
 /-! ## basic facts about `HB` -/
@@ -389,4 +389,23 @@ theorem clkInv_stateAt (tr : List Ev) : ∀ n, n ≤ tr.length → ClkInv tr n (
     rw [stateAt_succ he]
     exact clkInv_step (ih (by omega)) he
 
-end Librfn.C07
+/-- thread `u` has a `k`-th event among the first `n` whenever `1 ≤ k ≤ cnt tr n u` -/
+theorem exists_kth (tr : List Ev) (u k : Nat) (hk : 1 ≤ k) : ∀ n, n ≤ tr.length → k ≤ cnt tr n u →
+    ∃ i e, i < n ∧ tr[i]? = some e ∧ e.tid = u ∧ cnt tr (i + 1) u = k := by
+  intro n
+  induction n with
+  | zero => intro _ h; simp [cnt] at h; omega
+  | succ n ih =>
+    intro hn h
+    have hlt : n < tr.length := by omega
+    have he : tr[n]? = some tr[n] := List.getElem?_eq_getElem hlt
+    by_cases hle : k ≤ cnt tr n u
+    · obtain ⟨i, e, hi, h1, h2, h3⟩ := ih (by omega) hle
+      exact ⟨i, e, by omega, h1, h2, h3⟩
+    · rw [cnt_succ he] at h
+      by_cases ht : tr[n].tid = u
+      · refine ⟨n, tr[n], by omega, he, ht, ?_⟩
+        rw [cnt_succ he, if_pos ht]; rw [if_pos ht] at h; omega
+      · rw [if_neg ht] at h; omega
+
+end Librfn.C07.HBLemmas
